@@ -1023,9 +1023,22 @@ where
 
     let boundary_vertices = build_boundary_vertex_set(tds, facet_to_cells)?;
 
+    // The star of a vertex is *every* cell containing it. Collect stars in one pass over the
+    // cells instead of walking neighbor pointers from `incident_cell`: that walk only reaches
+    // the facet-connected part of the star, which is exactly what a pinched vertex hides.
+    let mut stars: FastHashMap<VertexKey, SmallBuffer<CellKey, 8>> =
+        fast_hash_map_with_capacity(tds.number_of_vertices().max(1));
+    for (cell_key, cell) in tds.cells() {
+        for &vk in cell.vertices() {
+            stars.entry(vk).or_default().push(cell_key);
+        }
+    }
+    let empty_star: SmallBuffer<CellKey, 8> = SmallBuffer::new();
+
     for (vertex_key, _vertex) in tds.vertices() {
         let interior_vertex = !boundary_vertices.contains(&vertex_key);
-        validate_single_vertex_link(tds, vertex_key, interior_vertex)?;
+        let star_cells = stars.get(&vertex_key).unwrap_or(&empty_star);
+        validate_vertex_link_with_star(tds, vertex_key, interior_vertex, star_cells)?;
     }
 
     Ok(())
@@ -1172,6 +1185,7 @@ fn validate_vertex_link_d2(
     }
 }
 
+#[cfg(test)]
 fn validate_single_vertex_link<T, U, V, const D: usize>(
     tds: &Tds<T, U, V, D>,
     vertex_key: VertexKey,
@@ -1184,6 +1198,20 @@ where
 {
     // Collect the star of the vertex.
     let star_cells = simplex_star_cells(tds, &[vertex_key])?;
+    validate_vertex_link_with_star(tds, vertex_key, interior_vertex, &star_cells)
+}
+
+fn validate_vertex_link_with_star<T, U, V, const D: usize>(
+    tds: &Tds<T, U, V, D>,
+    vertex_key: VertexKey,
+    interior_vertex: bool,
+    star_cells: &[CellKey],
+) -> Result<(), ManifoldError>
+where
+    T: CoordinateScalar,
+    U: DataType,
+    V: DataType,
+{
     if star_cells.is_empty() {
         // A vertex with empty star violates purity for a non-empty triangulation.
         return Err(ManifoldError::VertexLinkNotManifold {
@@ -1197,7 +1225,7 @@ where
         });
     }
 
-    let link_simplices = simplex_link_simplices_from_star(tds, &[vertex_key], &star_cells)?;
+    let link_simplices = simplex_link_simplices_from_star(tds, &[vertex_key], star_cells)?;
 
     // D=1: the link is a 0-manifold (S^0 for interior vertices, B^0 for boundary vertices).
     if D == 1 {
@@ -1229,6 +1257,9 @@ where
 
     // Connectivity + max-degree in the link 1-skeleton.
     let (connected, max_degree) = link_1_skeleton_connectivity_and_max_degree(&link_simplices);
+    // A manifold link is connected through its facets; pieces that only meet in a lower-dimensional
+    // face (a pinch) are connected in the 1-skeleton but are not a manifold.
+    let connected = connected && link_is_facet_connected::<D>(&link_simplices);
 
     // D>=3: validate the (D-1)-dimensional link via facet degrees and boundary closure.
     let (boundary_facet_count, link_is_manifold) =
@@ -1266,6 +1297,53 @@ where
             interior_vertex,
         })
     }
+}
+
+fn union_find_root(parent: &mut [usize], mut i: usize) -> usize {
+    while parent[i] != i {
+        parent[i] = parent[parent[i]];
+        i = parent[i];
+    }
+    i
+}
+
+/// Returns `true` if the link simplices form one component under adjacency across shared facets.
+fn link_is_facet_connected<const D: usize>(link_cells: &SmallBuffer<VertexKeyBuffer, 8>) -> bool {
+    let n = link_cells.len();
+    if n <= 1 {
+        return true;
+    }
+
+    // Union-find over link simplices, joined through their (D-2)-dimensional facets.
+    let mut parent: Vec<usize> = (0..n).collect();
+
+    let mut first_owner: FastHashMap<u64, usize> =
+        fast_hash_map_with_capacity(n.saturating_mul(D).max(1));
+    let mut facet_vertices: VertexKeyBuffer = VertexKeyBuffer::with_capacity(D.saturating_sub(1));
+
+    for (idx, simplex) in link_cells.iter().enumerate() {
+        for omit in 0..simplex.len() {
+            facet_vertices.clear();
+            for (j, &vk) in simplex.iter().enumerate() {
+                if j != omit {
+                    facet_vertices.push(vk);
+                }
+            }
+            let key = facet_key_from_vertices(&facet_vertices);
+            match first_owner.get(&key) {
+                Some(&other) => {
+                    let (a, b) = (union_find_root(&mut parent, idx), union_find_root(&mut parent, other));
+                    parent[a] = b;
+                }
+                None => {
+                    first_owner.insert(key, idx);
+                }
+            }
+        }
+    }
+
+    let root = union_find_root(&mut parent, 0);
+    (1..n).all(|i| union_find_root(&mut parent, i) == root)
 }
 
 fn link_1_skeleton_connectivity_and_max_degree(
